@@ -174,6 +174,58 @@ Eval vm_compute in (map (fun es => flat (Jres J_state (load_raw check ocfg_post_
       viol.append(v)
     if len(samples) < 3:
       samples.append({'recipe': r1[:3], 'result': v['key'] if v else 'ok'})
+  # ---- Quantizer level: the exported recipe always reflects every update made so far,
+  # however often it was exported or the model quantized in between; reloaded into a
+  # fresh Quantizer it gives the same model ----
+  import copy
+  import gen_graph as gg
+  import gen_recipe as gr
+  from ai_edge_quantizer import quantizer
+  n_hist = 200 if tier == 'thorough' else 30
+  done = tries = 0
+  while done < n_hist and tries < n_hist * 5:
+    tries += 1
+    mb, _info = gg.gen_model(rng, n_subgraphs=1, max_ops=rng.choice([3, 5]))
+    rules, _fam = gr.gen_rules(rng, mb, 'float')
+    probe = quantizer.Quantizer(bytearray(mb))
+    rules = gr.apply_rules(probe, rules)
+    if len(rules) < 2:
+      continue
+    done += 1
+    evals += 1
+    direct = norm(probe.get_quantization_recipe())
+    cut = rng.randrange(1, len(rules))
+    qt = quantizer.Quantizer(bytearray(mb))
+    gr.apply_rules(qt, rules[:cut])
+    qt.get_quantization_recipe()                       # exported once ...
+    if rng.random() < 0.5:
+      try:
+        qt.quantize()                                  # ... or used once
+      except Exception:  # pylint: disable=broad-except
+        pass
+    gr.apply_rules(qt, rules[cut:])                    # then edited further
+    exported = norm(qt.get_quantization_recipe())
+    inp = {'rules': [list(r) for r in rules], 'exported_after': cut,
+           'model_hex': mb.hex() if len(mb) < 20000 else None}
+    if exported != direct:
+      kinds['export-stale'] = kinds.get('export-stale', 0) + 1
+      viol.append({'key': 'C12:export-stale-after-update', 'what':
+                   f'after {cut} rules, an export, and {len(rules) - cut} more update(s) the exported recipe has '
+                   f'{len(exported)} rules; the same rules entered without the intermediate export give {len(direct)}',
+                   'input': inp})
+      continue
+    try:
+      out1 = bytes(qt.quantize().quantized_model)
+      fresh = quantizer.Quantizer(bytearray(mb))
+      fresh.load_quantization_recipe(copy.deepcopy(exported))
+      out2 = bytes(fresh.quantize().quantized_model)
+      if out1 != out2:
+        viol.append({'key': 'C12:reloaded-recipe-gives-other-model', 'what':
+                     'quantize() of the edited Quantizer and of a fresh Quantizer loaded with its exported recipe differ',
+                     'input': inp})
+    except Exception:  # pylint: disable=broad-except
+      pass
+  kinds['quantizer_level_histories'] = done
   out = {
       'interface': 'F', 'evaluations': evals,
       'distinct_nontrivial': len(nontrivial),
